@@ -275,7 +275,7 @@ def run_alias(servers, prefix, pooling, order):
     return P
 
 
-def run_revival(servers, prefix, pooling, first_op, how):
+def run_revival(servers, prefix, pooling, first_op, how, vi=-1):
     """A server comes back: `how`='dead' - it failed (retry_attempts=0: evicted at once), recovered, and
     dead_timeout elapsed; `how`='failed' - it failed once (retry_attempts=2), recovered, retry_timeout elapsed.
     The first operation afterwards is `first_op`; every operation on the same key must then agree."""
@@ -284,7 +284,7 @@ def run_revival(servers, prefix, pooling, first_op, how):
     w.hc.retry_timeout, w.hc.dead_timeout = 1, 6
     P = []
     names = w.names
-    victim = servers[-1]
+    victim = servers[vi]
     vaddr = addr_of(victim)
     keys = []
     i = 0
@@ -404,14 +404,15 @@ def _worker(job, chk):
     if len(servers) >= 2:
         for how in ("dead", "failed"):
             for first_op in ("set_many", "get_many", "get", "set", "delete"):
-                P = run_revival(servers, prefix, pooling, first_op, how)
-                chk.add()
-                chk.outcome((si, prefix, pooling, "revival", how, first_op))
-                for sig, text in P:
-                    chk.violation(f"{sig}|pooling={pooling}",
-                                  f"HashClient({[name_of(s) for s in servers]}, key_prefix={prefix!r}, use_pooling={pooling}): {text}",
-                                  {"servers": si, "prefix": prefix.decode(), "pooling": pooling, "keys": [], "alias": None,
-                                   "revival": [first_op, how]})
+                for vi in range(len(servers)):  # every server of the set (TCP or UNIX socket) is the one that comes back
+                    P = run_revival(servers, prefix, pooling, first_op, how, vi)
+                    chk.add()
+                    chk.outcome((si, prefix, pooling, "revival", how, first_op, vi))
+                    for sig, text in P:
+                        chk.violation(f"{sig}|pooling={pooling}",
+                                      f"HashClient({[name_of(s) for s in servers]}, key_prefix={prefix!r}, use_pooling={pooling}): {text}",
+                                      {"servers": si, "prefix": prefix.decode(), "pooling": pooling, "keys": [], "alias": None,
+                                       "revival": [first_op, how, vi]})
     if len(servers) >= 3:
         for ra in (0, 1, 2):
             for ie in (False, True):
